@@ -4,13 +4,14 @@ pub mod c01;
 pub mod c02;
 pub mod c03;
 pub mod c05;
+pub mod c06;
 pub mod c10;
 pub mod c11;
 pub mod c12;
 
 use crate::engine::Cfg;
 
-pub const SCENARIOS: &[&str] = &["c01", "c02a", "c02b", "c03", "c05", "c10s", "c10f", "c11c", "c11b", "c11w", "c12"];
+pub const SCENARIOS: &[&str] = &["c01", "c02a", "c02b", "c03", "c05", "c06mpsc", "c06spsc", "c06mpmc", "c10s", "c10f", "c11c", "c11b", "c11w", "c12"];
 
 pub fn run(name: &str, seed: u64, ov: impl FnMut(&mut Cfg)) -> ! {
     match name {
@@ -19,6 +20,9 @@ pub fn run(name: &str, seed: u64, ov: impl FnMut(&mut Cfg)) -> ! {
         "c02b" => c02::run_b(seed, ov),
         "c03" => c03::run(seed, ov),
         "c05" => c05::run(seed, ov),
+        "c06mpsc" => c06::run(seed, Some(c06::Flavor::Mpsc), ov),
+        "c06spsc" => c06::run(seed, Some(c06::Flavor::Spsc), ov),
+        "c06mpmc" => c06::run(seed, Some(c06::Flavor::Mpmc), ov),
         "c10s" => c10::run_sem(seed, ov),
         "c10f" => c10::run_flag(seed, ov),
         "c11c" => c11::run_condvar(seed, ov),
